@@ -78,8 +78,9 @@ def _case(draw):
                 fault["task"], fault["client"] = leaf["name"], draw(st.integers(0, leaf["clients"] - 1))
                 for other in el["parallel"][:j]:
                     other["tolerant"] = True
-                if draw(st.booleans()):
-                    case["hosts"] = [1] * len(case["hosts"])  # one worker per host: the tasks' clients share it
+                fault["ordinal"] = 0
+                if draw(st.integers(0, 3)):
+                    case["hosts"] = [1]  # a single worker: the clients of all tasks of the element share it
             for other in leaves:
                 if other is not leaf and draw(st.integers(0, 3)):
                     other["tolerant"] = True
